@@ -252,7 +252,15 @@ PROPS["C14"] = dict(
 PROPS["C06"]["race"] = True
 _c06 = PROPS["C06"]["shards"]
 PROPS["C06"]["shards"] = lambda tier, seed, search=False: _c06(tier, seed, search) + conc_shards(tier, seed, search)[:2]
-PROPS["C06"]["rule"] = PROPS["C06"]["rule"] + "; plus the concurrent family (real audit file, every line must be one complete record, race detector on)"
+def auditfmt_shards(tier, seed, search=False):
+    k, n = (4, 5000) if tier == "quick" and not search else (8, 40000)
+    return [Shard("auditfmt", ["-seed", str(s), "-n", str(n)], driver="auditfmt") for s in seeds(seed, k)]
+
+
+_c06b = PROPS["C06"]["shards"]
+PROPS["C06"]["shards"] = lambda tier, seed, search=False: _c06b(tier, seed, search) + auditfmt_shards(tier, seed, search)
+PROPS["C06"]["trusted"] = PROPS["C06"]["trusted"] + ["Model/Json.lean as encoding/json's string escaping and struct layout for audit.Entry (tied byte for byte by the auditfmt family; strings that are not valid UTF-8 are outside the model)"]
+PROPS["C06"]["rule"] = PROPS["C06"]["rule"] + "; plus the record-format family (entries with hostile strings - quotes, backslashes, control characters, newlines, <>&, U+2028/9, non-BMP, field-forging fragments, invalid UTF-8 - written by the real audit.Writer, rendered by the model's encoder and read back by the model's reader)" + "; plus the concurrent family (real audit file, every line must be one complete record, race detector on)"
 
 
 def concstore_shards(tier, seed, search=False, props=("C12",)):
